@@ -175,10 +175,53 @@ func (c *Client) do(ctx context.Context, url string, dest, req any) error {
 		return fmt.Errorf(msg, resp.StatusCode, text)
 	}
 	defer resp.Body.Close()
-	if err := json.NewDecoder(c.debug(resp.Body)).Decode(dest); err != nil {
+	if err := decode(c.debug(resp.Body), dest); err != nil {
 		return fmt.Errorf("unable to json decode: %w", err)
 	}
 	wctx.CounterAdd(ctx, 1)
+	return nil
+}
+
+// go-json compiles a decoder the first time it sees a type and
+// publishes it in a package level table without synchronization.
+// A goroutine reading the table during that store can pick up a
+// half written entry and crash the process. Until a destination
+// type has been decoded once its decodes run one at a time;
+// afterwards they run in parallel.
+var (
+	decoded  sync.Map // destination type -> struct{}
+	decoding sync.Mutex
+)
+
+func decode(r io.Reader, dest any) error {
+	// Values held in interfaces get their decoders when the
+	// decoder first meets them: they are part of the type.
+	var (
+		held []any
+		t    = fmt.Sprintf("%T", dest)
+	)
+	if xs, ok := dest.(*[]any); ok {
+		held = *xs
+		for _, x := range held {
+			t += fmt.Sprintf(" %T", x)
+		}
+	}
+	if _, ok := decoded.Load(t); ok {
+		return json.NewDecoder(r).Decode(dest)
+	}
+	decoding.Lock()
+	defer decoding.Unlock()
+	// Meet the held values now: the response
+	// may be too short to reach them.
+	for _, x := range held {
+		if err := json.Unmarshal([]byte("null"), x); err != nil {
+			return err
+		}
+	}
+	if err := json.NewDecoder(r).Decode(dest); err != nil {
+		return err
+	}
+	decoded.Store(t, struct{}{})
 	return nil
 }
 
